@@ -422,3 +422,59 @@ func FamilyDefault(thorough bool) []*Conv {
 	}
 	return out
 }
+
+// FamilySameType: identical source and target types without skipCopySameType - every pointer, slice and map
+// must still be copied (C04), whatever fast path the generator takes for equal types.
+func FamilySameType(thorough bool) []*Conv {
+	var out []*Conv
+	formats := []string{"struct", "function", "variable"}
+	fi := 0
+	g := &shapeGen{}
+	type sctor struct {
+		name string
+		f    func(in shape) shape
+	}
+	same := func(in shape, name, t string, decls ...string) shape {
+		return shape{Src: t, Tgt: t, Name: name + "_" + in.Name, Decls: append(append([]string{}, in.Decls...), decls...)}
+	}
+	sc := []sctor{
+		{"ptr", func(in shape) shape { return same(in, "ptr", "*"+in.Src) }},
+		{"slice", func(in shape) shape { return same(in, "slice", "[]"+in.Src) }},
+		{"map", func(in shape) shape { return same(in, "map", "map[string]"+in.Src) }},
+		{"anon", func(in shape) shape { return same(in, "anon", "struct{ F "+in.Src+"; H string }") }},
+		{"anon2", func(in shape) shape { return same(in, "anon2", "struct{ N int; Inner struct{ V "+in.Src+" } }") }},
+		{"named", func(in shape) shape {
+			k := g.id()
+			return same(in, "named", fmt.Sprintf("PFXSN%d", k), fmt.Sprintf("type PFXSN%d struct {\n\tF %s\n\tG int\n}", k, in.Src))
+		}},
+	}
+	add := func(s shape) {
+		out = append(out, shapeConv("sametype", s, formats[fi%3], nil, nil))
+		fi++
+	}
+	leaves := []shape{{Src: "int", Tgt: "int", Name: "int"}, {Src: "*int", Tgt: "*int", Name: "pint"}, {Src: "[]string", Tgt: "[]string", Name: "strs"}}
+	for _, l := range leaves {
+		for _, c1 := range sc {
+			add(c1.f(l))
+			for _, c2 := range sc {
+				if l.Name == "int" && !thorough && c1.name != "map" && c2.name != "anon" && c2.name != "anon2" {
+					continue
+				}
+				add(c1.f(c2.f(l)))
+				if !thorough && !(c1.name == "map" || c1.name == "slice") {
+					continue
+				}
+				for _, c3 := range sc {
+					if !thorough && !(c3.name == "anon" || c3.name == "anon2" || c3.name == "named") {
+						continue
+					}
+					if l.Name == "strs" && !thorough {
+						continue
+					}
+					add(c1.f(c2.f(c3.f(l))))
+				}
+			}
+		}
+	}
+	return out
+}
